@@ -240,6 +240,7 @@ class Interp:
                 r = self.try_ctor(head, vals, cur0)
                 if r is not None: return r
         # named const / static / promoted / fn item
+        if self.__dict__.get("_tparams"): s = self.subst_tparams(s)          # `<S as Trait>::CONST` inside a generic fn
         name = strip_generics(s)
         cur = fr.fn.crate if fr is not None else self.prog.crate
         if "::promoted[" in name:
@@ -607,17 +608,28 @@ class Interp:
         # enum variant / tuple struct constructor used as a function
         r = self.try_ctor(callee, args, cur_crate)
         if r is not None: return r
-        # trait method on a type parameter / trait object: dispatch on the run-time type of the receiver
-        m = re.match(r"^<(dyn [\w:]+|[A-Z]\w*|impl [\w:<>]+) as ([\w:<>, ]+)>::(\w+)$", strip_generics(callee).strip())
-        if m and args and (m.group(1).startswith(("dyn ", "impl ")) or self.prog.types.lookup(m.group(1), cur_crate) is None):
-            recv = self.force(ctx, self.deref(ctx, args[0])) if isinstance(args[0], (Ref, SymEnum)) else args[0]
-            if isinstance(recv, (Struct, EnumV)):
-                concrete = f"<{recv.ty} as {m.group(2)}>::{m.group(3)}"
-                f = self.prog.resolve(concrete, cur_crate)
-                if f is None or not f.blocks:
-                    # default method of the trait: its body is printed under the trait's own path
-                    f = self.prog.resolve(f"{simple_name(m.group(2))}::{m.group(3)}", cur_crate)
-                if f is not None and f.blocks: return self.call_mir(ctx, f, args)
+        # trait method without a body of its own under this name
+        m = re.match(r"^<(.+) as ([\w:<>, ]+)>::(\w+)$", strip_generics(callee).strip())
+        if m and args is not None:
+            selfty, trait, meth = m.group(1).strip(), m.group(2), m.group(3)
+            generic_self = bool(re.fullmatch(r"dyn [\w:]+|[A-Z]\w*|impl [\w:<>]+", selfty)) and (
+                selfty.startswith(("dyn ", "impl ")) or self.prog.types.lookup(selfty, cur_crate) is None)
+            if generic_self and args:
+                # type parameter / trait object: dispatch on the run-time type of the receiver
+                recv = self.force(ctx, self.deref(ctx, args[0])) if isinstance(args[0], (Ref, SymEnum)) else args[0]
+                if isinstance(recv, (Struct, EnumV)):
+                    f = self.prog.resolve(f"<{recv.ty} as {trait}>::{meth}", cur_crate)
+                    if f is not None and f.blocks: return self.call_mir(ctx, f, args)
+                elif isinstance(recv, tuple):
+                    # impl for a tuple type: pick the impl of this trait whose self type is a tuple of the same arity
+                    cands = [x for (sn_, m_), xs in self.prog.methods.items() if m_ == meth for x in xs
+                             if x[1] == simple_name(trait) and (x[4] or "").strip().lstrip("&").startswith("(")
+                             and len(split_top((x[4] or "").strip().lstrip("&")[1:-1])) == len(recv)]
+                    if len(cands) == 1 and cands[0][2].blocks: return self.call_mir(ctx, cands[0][2], args)
+            # provided (default) method of a trait of the crates under analysis: its body is printed under the trait's own path
+            f = self.prog.resolve(f"{simple_name(trait)}::{meth}", cur_crate)
+            if f is not None and f.blocks and f.crate in getattr(self.prog, "crates", ()) and not f.impl_at and len(f.params) == len(args):
+                return self.call_mir(ctx, f, args)
         raise Unsupported(f"no MIR and no model for callee `{callee}` (crate {cur_crate})")
 
     _SHADOW_CACHE = {}
